@@ -104,13 +104,14 @@ const (
 	OptAcceptSNSSAI                // NAS: S-NSSAI in the establishment accept
 	OptAcceptAlwaysOn              // NAS: always-on indication
 	OptSvcPDUStatus                // NAS: PDU session status in Service Accept
+	OptRelCmdAMFIDOnly             // UE Context Release Command names the UE by its AMF-UE-NGAP-ID alone (the other alternative of UE-NGAP-IDs)
 	OptEnd
 )
 
 var OptNames = []string{"DL.OldAMF", "DL.RANPagingPriority", "DL.MobilityRestrictionList", "DL.IndexToRFSP", "DL.UE-AMBR", "DL.AllowedNSSAI",
 	"ICS.OldAMF", "ICS.UE-AMBR", "ICS.MobilityRestrictionList", "ICS.IndexToRFSP", "ICS.MaskedIMEISV", "Svc.SetupListCxtReq",
 	"SMC.IMEISVRequest", "SMC.RINMR", "RegAccept.TAIList", "RegAccept.AllowedNSSAI", "RegAccept.T3512", "RegAccept.NetworkFeature",
-	"CUC.GUTI", "CUC.ShortName", "Accept.RQTimer", "Accept.S-NSSAI", "Accept.AlwaysOn", "SvcAccept.PDUSessionStatus"}
+	"CUC.GUTI", "CUC.ShortName", "Accept.RQTimer", "Accept.S-NSSAI", "Accept.AlwaysOn", "SvcAccept.PDUSessionStatus", "RelCmd.AMF-UE-NGAP-ID-only"}
 
 // NGAPOptionMask: the options that are NGAP-level optional IEs (the NT rule of C01 speaks of these).
 const NGAPOptionMask = OptSvcReactivate<<1 - 1
